@@ -56,7 +56,7 @@ impl<'a> Bytes<'a> {
             let n = s.u8() as usize % (mp + 1);
             s.codes(id, n)
         };
-        match self.u8() % 25 {
+        match self.u8() % 26 {
             0 => Repr::Collect,
             1 => Repr::Parse,
             2 => Repr::FromVec,
@@ -91,6 +91,7 @@ impl<'a> Bytes<'a> {
                 Repr::TruncExtend { split: self.u16(), junk: self.codes(id, n) }
             }
             23 => Repr::RawBitVec { head: 1 + self.u8() % 63 },
+            24 => Repr::CollectedSlices { pre: pre(self), post: self.codes(id, 2) },
             _ => Repr::Collect,
         }
     }
